@@ -86,6 +86,11 @@ func c17Data(r *rng.R) *document.TemplateData {
 		d.SetImage("pic", name, nil)
 		return d
 	}
+	if r.Chance(1, 3) {
+		// a picture that comes with its own configuration object, description and title
+		d.SetImageWithDetails("pic", "", im.Data, &document.ImageConfig{Position: document.ImagePositionInline, Alignment: document.AlignCenter, Size: &document.ImageSize{Width: 20, KeepAspectRatio: true}}, "described "+gen.Word(r, 1, 5), "title "+gen.Word(r, 1, 5))
+		return d
+	}
 	d.SetImageFromData("pic", im.Data, nil)
 	return d
 }
